@@ -289,10 +289,22 @@ Fixpoint run_phases (phs : list (list seff)) (pools : list pres) : list seff * b
       end
   end.
 
-Definition run_stage_desc (s : stage_desc) (pools : list pres) : list seff * bool :=
+(* `clean_ok` is an oracle: when the inspector raised, the sibling workers are still
+   running and still write into the scratch directory that the `finally` block removes
+   (utils._clean_up: iterdir, unlink, rmdir); the removal can therefore fail, and the
+   exception of the finally block then replaces the inspector's RuntimeError. *)
+Inductive raised_by := ENone | EInspector | ECleanup.
+
+Definition run_stage_desc_c (s : stage_desc) (pools : list pres) (clean_ok : bool)
+  : list seff * bool * raised_by :=
   let x := run_phases (sd_phases s) pools in
-  if snd x then (fst x ++ sd_post s ++ sd_finally s ++ sd_after s, true)
-  else (fst x ++ sd_finally s, false).
+  if snd x then (fst x ++ sd_post s ++ sd_finally s ++ sd_after s, true, ENone)
+  else if clean_ok then (fst x ++ sd_finally s, false, EInspector)
+  else (fst x ++ filter (fun e => negb (seff_eqb SCleanScratch e)) (sd_finally s), false,
+        if existsb (seff_eqb SCleanScratch) (sd_finally s) then ECleanup else EInspector).
+
+Definition run_stage_desc (s : stage_desc) (pools : list pres) : list seff * bool :=
+  fst (run_stage_desc_c s pools true).
 
 Definition stats_stage : stage_desc :=
   {| sd_phases := [[SScratch]]; sd_post := [SPayload]; sd_finally := [SCleanScratch]; sd_after := [SComplete] |}.
@@ -378,20 +390,21 @@ Definition run_selection_sx (x : sx) : sx :=
 Definition seff_tag (e : seff) : Z :=
   match e with SScratch => 0 | SSkeleton => 1 | SPayload => 2 | SComplete => 3 | SCleanScratch => 4 end%Z.
 
-(* input: (stage index in all_stages, (pool verdict ...)) with verdict 0 = clean drain,
-   anything else = raised.  output: (effect tags, completed) *)
+(* input: (stage index in all_stages, (pool verdict ...), clean_ok) with verdict 0 = clean
+   drain, anything else = raised.  output: (effect tags, completed, 0 none | 1 inspector | 2 cleanup) *)
 Definition run_stage_desc_sx (x : sx) : sx :=
   match x with
-  | L [i; rs] =>
-      match sx_nat i, sx_LZ rs with
-      | Some i, Some rs =>
+  | L [i; rs; ck] =>
+      match sx_nat i, sx_LZ rs, sx_bool ck with
+      | Some i, Some rs, Some ck =>
           match nth_error all_stages i with
           | Some s =>
-              let o := run_stage_desc s (map (fun r => if (r =? 0)%Z then POk else PRaised 0 r) rs) in
-              sx_ok (L [of_LZ (map seff_tag (fst o)); of_bool (snd o)])
+              let o := run_stage_desc_c s (map (fun r => if (r =? 0)%Z then POk else PRaised 0 r) rs) ck in
+              sx_ok (L [of_LZ (map seff_tag (fst (fst o))); of_bool (snd (fst o));
+                        I (match snd o with ENone => 0 | EInspector => 1 | ECleanup => 2 end)%Z])
           | None => sx_bad
           end
-      | _, _ => sx_bad
+      | _, _, _ => sx_bad
       end
   | _ => sx_bad
   end.
